@@ -11,6 +11,7 @@
 //!   tick <i> <secs>                 simulated time passes at node i (fetcher deadlines, replication clocks)
 //!   interval <i>                    `LocalSwarmCmd::TriggerIntervalReplication` at node i
 //!   forge <from> <to> <k=T,...>     a `Cmd::Replicate` claiming holder `from` put on the wire towards node `to`
+//!   spoof <from> <h> <to> <k=T,...> a `Cmd::Replicate` SENT BY peer `from` whose `holder` field claims peer `h`
 //!   deliver <m> c=<w> | drop <m> | dup <m>     transport decisions for wire message m
 //!   settled                         dump of every node's records (after fair rounds: the convergence oracle runs)
 //!   dump                            same dump without the oracle
@@ -302,6 +303,33 @@ fn exec(ctx: &mut Ctx, out: &mut Out, line: &str) {
     out.line(op, res);
 }
 
+/// Shape of the `Cmd::Replicate` arm of `handle_req_resp_events` (a `request_response::Event` cannot be built outside
+/// libp2p, so the arm is played here): taken from what rs2lean read from the current source
+/// (`lean/SafeNet/Gen/Replication.lean`, regenerated by every check run before this binary starts).
+#[derive(Clone, Copy, PartialEq, Debug)]
+enum ArmShape {
+    Unconditional,
+    IfHolderIsSender,
+    IfHolderIsNotSender,
+}
+
+fn arm_shape() -> ArmShape {
+    static SHAPE: std::sync::OnceLock<ArmShape> = std::sync::OnceLock::new();
+    *SHAPE.get_or_init(|| {
+        let path = concat!(env!("CARGO_MANIFEST_DIR"), "/../../lean/SafeNet/Gen/Replication.lean");
+        let text = std::fs::read_to_string(path).unwrap_or_default();
+        let flag = |name: &str| -> Option<bool> {
+            text.lines().find_map(|l| l.strip_prefix(&format!("def {name} : Bool := "))).map(|v| v.trim() == "true")
+        };
+        match (flag("replicateChecksSender"), flag("replicateSenderMustEqual")) {
+            (Some(false), _) => ArmShape::Unconditional,
+            (Some(true), Some(true)) => ArmShape::IfHolderIsSender,
+            (Some(true), Some(false)) => ArmShape::IfHolderIsNotSender,
+            _ => panic!("cannot read the shape of the Cmd::Replicate arm from {path}"),
+        }
+    })
+}
+
 fn num(s: &str) -> Option<u64> {
     if s.is_empty() || s.len() > 4 || !s.bytes().all(|b| b.is_ascii_digit()) {
         return None;
@@ -566,14 +594,18 @@ fn exec_inner(ctx: &mut Ctx, out: &mut Out, ws: &[&str]) -> Option<(Option<Strin
             let res = format!("interval to={} keys={} | wire+={}", join(targets), listing, ctx.wire_str(&log.new_msgs));
             Some((None, res))
         }
-        ["forge", from, to, list] => {
-            let from = num(from)?;
-            let to = num(to)?;
-            if to >= ctx.n || !(ctx.uni.peer_ids.values().any(|p| *p == from)) {
+        ["forge", _, _, _] | ["spoof", _, _, _, _] => {
+            // forge: the holder field names the sender; spoof: it names somebody else
+            let (from, claimed, to, list) = match ws {
+                ["forge", from, to, list] => (num(from)?, num(from)?, num(to)?, *list),
+                ["spoof", from, h, to, list] => (num(from)?, num(h)?, num(to)?, *list),
+                _ => return None,
+            };
+            if to >= ctx.n || !(ctx.uni.peer_ids.values().any(|p| *p == from)) || !(ctx.uni.peer_ids.values().any(|p| *p == claimed)) {
                 return None;
             }
             let mut keys = vec![];
-            if *list != "-" {
+            if list != "-" {
                 for e in list.split(',') {
                     let (k, t) = e.split_once('=')?;
                     let k = num(k)?;
@@ -593,8 +625,8 @@ fn exec_inner(ctx: &mut Ctx, out: &mut Out, ws: &[&str]) -> Option<(Option<Strin
             let sim = ctx.sim();
             let id = sim.next_id;
             sim.next_id += 1;
-            sim.wire.insert(id, Msg::Rep { from, to, holder: NetworkAddress::from_peer(peer_id(from)), keys });
-            out.count("forge");
+            sim.wire.insert(id, Msg::Rep { from, to, holder: NetworkAddress::from_peer(peer_id(claimed)), keys });
+            out.count(if claimed == from { "forge" } else { "spoof" });
             Some((None, format!("m{id}")))
         }
         ["dup", m] => {
@@ -648,19 +680,31 @@ fn exec_inner(ctx: &mut Ctx, out: &mut Out, ws: &[&str]) -> Option<(Option<Strin
             let m = num(m)?;
             let msg = ctx.sim().wire.remove(&m)?;
             match msg {
-                Msg::Rep { from: _, to, holder, keys } => {
+                Msg::Rep { from, to, holder, keys } => {
                     let i = to as usize;
                     let view_before = ctx.node_view(i);
                     let before = ctx.ogf_set(i);
                     let holder_id = holder.as_peer_id().and_then(|p| ctx.uni.peer_ids.get(&p).copied());
+                    // the request's authenticated sender, as libp2p hands it to handle_req_resp_events
+                    let sender_peer = peer_id(from);
                     let adv: Vec<(u64, RecordType)> = keys
                         .iter()
                         .map(|(a, t)| (ctx.sim.as_ref().and_then(|s| s.key_ids.get(&a.to_record_key().to_vec()).copied()).unwrap_or(9999), t.clone()))
                         .collect();
                     {
+                        // the `Cmd::Replicate` arm, played as rs2lean read it from the source (ArmShape): the Ok response is
+                        // queued either way (not observed here); the request's holder and keys are handed on unconditionally,
+                        // or only `if holder.as_peer_id() == Some(peer)` (resp. `!=`)
+                        let acts = match arm_shape() {
+                            ArmShape::Unconditional => true,
+                            ArmShape::IfHolderIsSender => holder.as_peer_id() == Some(sender_peer),
+                            ArmShape::IfHolderIsNotSender => holder.as_peer_id() != Some(sender_peer),
+                        };
                         let sim = ctx.sim();
                         let _g = sim.rt.enter();
-                        hook::request_response::add_keys_to_replication_fetcher(&mut sim.nodes[i].driver, holder, keys);
+                        if acts {
+                            hook::request_response::add_keys_to_replication_fetcher(&mut sim.nodes[i].driver, holder, keys);
+                        }
                     }
                     let log = ctx.sim().pump(i);
                     let sched = ctx.sched_tokens(i, &log, &before);
@@ -678,6 +722,18 @@ fn exec_inner(ctx: &mut Ctx, out: &mut Out, ws: &[&str]) -> Option<(Option<Strin
                         }
                     } else {
                         out.count(if log.sched.is_empty() { "rep:close:nothing-new" } else { "rep:close:scheduled" });
+                    }
+                    // oracle (3'): the property speaks of the PEER an advertisement comes from. A list whose sender is
+                    // outside the K closest (or is the node itself) changes nothing — whatever its holder field claims
+                    let sender_close = from != to && ctx.rts[i].iter().take(K_VALUE - 1).any(|p| *p == from);
+                    if holder_id != Some(from) {
+                        out.count(if sender_close { "rep:spoofed:close-sender" } else { "rep:spoofed:far-sender" });
+                    }
+                    if !sender_close && (view != view_before || !log.new_msgs.is_empty() || !log.sched.is_empty()) {
+                        let what = format!(
+                            "node {to} acted on a replication list sent by peer {from}, which is not among its {K_VALUE} closest peers (or is itself); the list's holder field claims {holder_id:?}"
+                        );
+                        fail(out, ctx, "only_close_sender_heard", what);
                     }
                     // oracle (1b) eventual fetch: a fetch of key k was lost (request or reply dropped) and FETCH_TIMEOUT has passed
                     // at the requester. From then on, single-key advertisements of k by a heard holder that really holds k
@@ -1233,7 +1289,7 @@ fn gen_history(ctx: &mut Ctx, out: &mut Out, rng: &mut Rng, budget: &mut i64) {
                 run(ctx, out, format!("tick {i} {}", rng.pick(&[25u64, 50, 50, 1000])), budget);
             }
             run(ctx, out, format!("interval {i}"), budget);
-        } else if roll < 20 && !meshed {
+        } else if roll < 24 && !meshed {
             let to = rng.below(n as u64) as usize;
             let from = if rng.chance(1, 2) { *rng.pick(&ctx.uni.close_strangers[to][..]) } else { rng.below(n as u64) };
             let cnt = rng.range(1, 3);
@@ -1249,11 +1305,21 @@ fn gen_history(ctx: &mut Ctx, out: &mut Out, rng: &mut Rng, budget: &mut i64) {
                     format!("{k}={t}")
                 })
                 .collect();
-            run(ctx, out, format!("forge {from} {to} {}", list.join(",")), budget);
-        } else if roll < 24 && !meshed {
+            if rng.chance(1, 2) {
+                // the holder field claims somebody else: another node, or one of the receiver's closest strangers
+                let claimed = if rng.chance(2, 3) { rng.below(n as u64) } else { *rng.pick(&ctx.uni.close_strangers[to][..]) };
+                if claimed != from {
+                    run(ctx, out, format!("spoof {from} {claimed} {to} {}", list.join(",")), budget);
+                } else {
+                    run(ctx, out, format!("forge {from} {to} {}", list.join(",")), budget);
+                }
+            } else {
+                run(ctx, out, format!("forge {from} {to} {}", list.join(",")), budget);
+            }
+        } else if roll < 28 && !meshed {
             let i = rng.below(n as u64);
             run(ctx, out, format!("tick {i} {}", rng.pick(&[25u64, 50, 1000])), budget);
-        } else if roll < 28 && !meshed {
+        } else if roll < 32 && !meshed {
             // a later local update on some node
             let k = *rng.pick(&keys);
             let i = rng.below(n as u64);
@@ -1390,6 +1456,13 @@ fn corpus(uni: &Universe) -> Vec<String> {
     for l in ["forge 1 0 0=C", "deliver 1", "deliver 2", "deliver 3", "dump"] {
         v.push(l.into());
     }
+    // a far peer speaks for a close one: a stranger that node 0 does not know sends it a list whose holder field names
+    // node 1 (close, and really holding the chunk); then node 1 itself sends the same list
+    mesh2(&mut v, &[0]);
+    let stranger = uni.close_strangers[0][0];
+    for l in ["seed 1 0 C".to_string(), format!("spoof {stranger} 1 0 0=C"), "deliver 1".into(), "forge 1 0 0=C".into(), "deliver 2".into(), "dump".into()] {
+        v.push(l);
+    }
     // a trigger on an empty index still starts the minimum interval: the record uploaded right after it is advertised
     // by the first trigger that fires 30 s later, not before (shrunk from a thorough-tier oracle false alarm)
     mesh2(&mut v, &[0]);
@@ -1476,6 +1549,6 @@ fn main() {
     if ctx.slow_histories > 0 {
         out.notes.push(format!("{} histories were slow in real time (more than 3.5 s, or more than 0.8 s for a history with ticks next to a timing constant, e.g. 44 s against 45 s): a simulated-time comparison may have been decided by real time", ctx.slow_histories));
     }
-    out.notes.push("glue executed by the harness instead of the real code: the Cmd::Replicate match arm (calls add_keys_to_replication_fetcher directly), libp2p request-response (a request becomes a NetworkEvent::QueryRequestReceived with a FromSelf responder / the requester's oneshot is answered with the response), the run loop's select (commands polled through the hook), FailedToFetchHolders is observed but not forwarded".into());
+    out.notes.push("glue executed by the harness instead of the real code: the Cmd::Replicate match arm (played as rs2lean read it from the source: add_keys_to_replication_fetcher is called unconditionally or only when the holder field is the request's sending peer), libp2p request-response (a request becomes a NetworkEvent::QueryRequestReceived with a FromSelf responder / the requester's oneshot is answered with the response), the run loop's select (commands polled through the hook), FailedToFetchHolders is observed but not forwarded".into());
     out.finish();
 }
